@@ -238,6 +238,7 @@ class Recorder:
         if acq:
             snap.update(self.acq_filters(S, ops))
         snap['stim'] = self.stim_flat(S)
+        snap['openql'] = self.openql_flat(S)
         if cold:
             self.cold(S, ops, comps, snap)
         return snap
@@ -262,6 +263,15 @@ class Recorder:
             return {'status': 'ok', 'flat': out}
         except Exception as e:
             return {'status': 'error:' + e.__class__.__name__ + ':' + str(e)[:120], 'flat': []}
+
+    def openql_flat(self, S):
+        if os.environ.get('VERIF_OPENQL') != '1':
+            return {'status': 'none', 'flat': [], 'names': [], 'same_twice': True}
+        from qce_circuit.language.declarative_circuit import DeclarativeCircuit
+        import openql_double
+        h = DeclarativeCircuit()
+        h._structure = S
+        return openql_double.export(h)
 
     def acq_filters(self, S, ops):
         """get_acquisition_indices by qubit and by (qubit, tag) through a handle on the structure, and the order of
